@@ -46,6 +46,10 @@ def sc_model(line):
         elif p[0] == 'c':
             objs[int(p[2])] = objs[ob]
             cov.append('clone:off=%s' % ('0' if objs[ob] % 64 == 0 else 'mid'))
+        elif p[0] == 'cf':
+            src = int(p[2])
+            cov.append('clone_from:dst-off=%s:src-off=%s' % ('0' if objs[ob] % 64 == 0 else 'mid', '0' if objs[src] % 64 == 0 else 'mid'))
+            objs[ob] = objs[src]
     return out, cov
 
 
